@@ -2050,6 +2050,66 @@ def isin(a, b, assume_unique=False, invert=False):
 # (checked by libcheck): it is only defined when /venv's NumPy has it.
 _HAS_IN1D = False
 
+# ---- NumPy's arithmetic ufuncs on DATA ------------------------------------------------------------------------------------
+# np.add / subtract / multiply / true_divide / floor_divide / power, called as FUNCTIONS (dimarray's operation() does), are
+# uninterpreted binary functions of the two cells -- NumPy's own, whatever it computes (inf, signed zeros, rounding) -- with
+# one law: a NaN operand gives NaN (not for power: 1 ** nan == 1 and nan ** 0 == 1 in IEEE).  The operators + - * on arrays
+# stay real arithmetic: they are what the library uses on LABELS.
+_UFUNC2 = {}
+
+
+def ufunc2_term(name, x, y):
+    """the cell NumPy's binary ufunc `name` computes from the cells x and y"""
+    if name not in _UFUNC2:
+        _UFUNC2[name] = z3.Function("np." + name, z3.RealSort(), z3.RealSort(), z3.RealSort())
+    F = _UFUNC2[name]
+    c = ctx()
+    cm = c.__dict__.setdefault("memo", {})
+    if ("ufunc2", name) not in cm:
+        cm[("ufunc2", name)] = True
+        c.lib("ufunc/" + name)
+        if name != "power":
+            u, v = z3.Real("uf!x"), z3.Real("uf!y")
+            c.add(z3.ForAll([u, v], z3.Implies(z3.Or(_isnan_f(u), _isnan_f(v)), _isnan_f(F(u, v))), patterns=[F(u, v)]))
+        if name in ("add", "multiply"):
+            u, v = z3.Real("uf!x"), z3.Real("uf!y")
+            c.add(z3.ForAll([u, v], F(u, v) == F(v, u), patterns=[F(u, v)]))       # IEEE addition and multiplication commute
+    # every NaN is the same operand: cells that are `same` (equal, or both NaN) give the same result
+    zx, zy = sym._toreal(to_z3(x)), sym._toreal(to_z3(y))
+    return F(z3.If(_isnan_f(zx), NAN, zx), z3.If(_isnan_f(zy), NAN, zy))
+
+
+def _make_ufunc2(name):
+    def f(a, b, out=None, **kw):
+        if out is not None or kw:
+            raise OutOfSubset("np.%s(out= / where= ...)" % name)
+        a, b = _as_operand(a), _as_operand(b)
+        if not isinstance(a, ndarray):
+            a = _scalar_array(a)
+        if not isinstance(b, ndarray):
+            b = _scalar_array(b)
+        for x in (a, b):
+            if x.elem not in ("real", "int"):
+                raise OutOfSubset("np.%s on %s data" % (name, x.elem))
+        shape, ia, ib = _bshape(a._shape, b._shape)
+        fa, fb = a.snapshot(), b.snapshot()
+        fn = lambda *idx: ufunc2_term(name, fa(*ia(idx)), fb(*ib(idx)))
+        if not shape:
+            return _wrap_elem(fn(), "real")
+        return ndarray.from_fn(fn, shape, "f", "real")
+    f.__name__ = name
+    return f
+
+
+add = _make_ufunc2("add")
+subtract = _make_ufunc2("subtract")
+multiply = _make_ufunc2("multiply")
+true_divide = _make_ufunc2("true_divide")
+divide = true_divide
+floor_divide = _make_ufunc2("floor_divide")
+power = _make_ufunc2("power")
+
+
 def __getattr__(name):
     if name == "in1d" and _HAS_IN1D:
         return isin
